@@ -113,7 +113,9 @@ impl XRefTable {
                 let should_be_updated = match *dst {
                     XRef::Raw { gen_nr: gen, .. } | XRef::Free { gen_nr: gen, .. }
                         => entry.get_gen_nr() > gen,
-                    XRef::Stream { .. } | XRef::Invalid
+                    XRef::Stream { .. }
+                        => false,
+                    XRef::Invalid
                         => true,
                     x => bail!("found {:?}", x)
                 };
